@@ -2,7 +2,7 @@
    declared length and no trailing zero word; deserialization of any u32 sequence yields the
    canonical value it denotes; round trips; sign validation; size hints are irrelevant. *)
 From BigNum Require Import Base BaseLemmas SpecBytes BytesLemmas BitDigits BitDigitsProofs
-  Iter IterProofs Bytes BytesProofs Serde.
+  SrcLitLemmas Iter IterProofs Bytes BytesProofs Serde.
 Open Scope Z_scope.
 
 (** ** the source-extracted parameters the proofs are about *)
